@@ -115,7 +115,7 @@ pub fn run_case(c: &Case, ctx: &mut Ctx) -> CaseResult {
     let mut activated = 0;
     for ls in &c.layers {
         // widths 1..=4, or (rare) 16..=24 neurons: size-gated fast paths live there
-        let width = if ls.wide > 0 { 15 + (1 + (ls.wide as usize - 1) % 9) } else { 1 + (ls.width as usize % W) };
+        let width = if ls.wide > 0 { 15 + (1 + (ls.wide as usize - 1) % 25) } else { 1 + (ls.width as usize % W) };
         ctx.class_if(width >= 16, "wide_layer");
         let mut a = project_aff(&ls.a, width, dim);
         if ls.scale != 0 && exact {
@@ -304,7 +304,7 @@ impl Property for C01 {
                 )
             })
             .prop_map(|(float_regime, in_dim, layers, head, post, pre, anchors, points)| Case { in_dim, layers, head, post, pre, anchors, points, float_regime })
-            .prop_flat_map(|c| (Just(c), 0u8..24, 0u8..40, 0u8..9))
+            .prop_flat_map(|c| (Just(c), 0u8..24, 0u8..40, 0u8..25))
             .prop_map(|(mut c, regime, wide, wk)| {
                 // 2.5 % of the exact networks get a wide hidden layer (16..24 neurons, at most 3 of them
                 // activated) followed by a narrow one: the cells live in the input space (dimension <= 3), so the
